@@ -336,114 +336,115 @@ Definition arr_prefix (r : list N) : option (N * list N) :=
   | _ => None
   end.
 
-Fixpoint parr (fuel : nat) (k : N) (s : list N) : option (list Z * list N) :=
-  match fuel with
-  | O => None
-  | S f =>
-      let (tok, z) := span is_bare (skip_ws s) in
-      match classify tok with
+(* one step of each mutually recursive parser, the recursive calls being parameters *)
+Definition parr_body (rec : list N -> option (list Z * list N)) (k : N) (s : list N)
+  : option (list Z * list N) :=
+  let (tok, z) := span is_bare (skip_ws s) in
+  match classify tok with
+  | None => None
+  | Some t =>
+      match arr_val k t with
       | None => None
-      | Some t =>
-          match arr_val k t with
+      | Some v =>
+          match skip_ws z with
+          | c :: z1 =>
+              if c =? 44 then
+                match rec z1 with Some (l, z2) => Some (v :: l, z2) | None => None end
+              else if c =? 93 then Some ([v], z1) else None
+          | [] => None
+          end
+      end
+  end.
+Fixpoint parr (fuel : nat) (k : N) (s : list N) : option (list Z * list N) :=
+  match fuel with O => None | S f => parr_body (parr f k) k s end.
+
+Definition pval_body (elems : list N -> option (tlist * list N))
+    (entries : list N -> option (tcomp * list N))
+    (arr : N -> list N -> option (list Z * list N)) (s : list N) : option (tag * list N) :=
+  match skip_ws s with
+  | [] => None
+  | c :: r =>
+      if c =? 123 then                                   (* { *)
+        match skip_ws r with
+        | [] => None
+        | c1 :: r1 =>
+            if c1 =? 125 then Some (TCompound CNil, r1)
+            else match entries r with Some (cc, z) => Some (TCompound cc, z) | None => None end
+        end
+      else if c =? 91 then                               (* [ *)
+        if starts_semi (snd (span is_bare r)) then       (* "[X;" : typed array, X must be B, I or L *)
+          match arr_prefix r with
           | None => None
-          | Some v =>
-              match skip_ws z with
-              | c :: z1 =>
-                  if c =? 44 then
-                    match parr f k z1 with Some (l, z2) => Some (v :: l, z2) | None => None end
-                  else if c =? 93 then Some ([v], z1) else None
+          | Some (k, r2) =>
+              match skip_ws r2 with
               | [] => None
+              | c3 :: r3 =>
+                  if c3 =? 93 then Some (mk_arr k [], r3)
+                  else match arr k r2 with Some (l, z) => Some (mk_arr k l, z) | None => None end
               end
           end
+        else
+          match skip_ws r with
+          | [] => None
+          | c1 :: r1 =>
+              if c1 =? 93 then Some (TList LNil, r1)
+              else
+                match elems r with
+                | Some (l, z) => if homog l then Some (TList l, z) else None
+                | None => None
+                end
+          end
+      else if (c =? 34) || (c =? 39) then
+        match unq c r with Some (x, z) => Some (TString x, z) | None => None end
+      else
+        let (tok, z) := span is_bare (c :: r) in
+        match classify tok with Some t => Some (t, z) | None => None end
+  end.
+
+Definition pelems_body (val : list N -> option (tag * list N))
+    (elems : list N -> option (tlist * list N)) (s : list N) : option (tlist * list N) :=
+  match val s with
+  | None => None
+  | Some (t, z) =>
+      match skip_ws z with
+      | c :: z1 =>
+          if c =? 44 then
+            match elems z1 with Some (l, z2) => Some (LCons t l, z2) | None => None end
+          else if c =? 93 then Some (LCons t LNil, z1) else None
+      | [] => None
+      end
+  end.
+
+Definition pentries_body (val : list N -> option (tag * list N))
+    (entries : list N -> option (tcomp * list N)) (s : list N) : option (tcomp * list N) :=
+  match pkey (skip_ws s) with
+  | None => None
+  | Some (k, z) =>
+      match skip_ws z with
+      | c :: z1 =>
+          if c =? 58 then
+            match val z1 with
+            | None => None
+            | Some (t, z2) =>
+                match skip_ws z2 with
+                | d :: z3 =>
+                    if d =? 44 then
+                      match entries z3 with Some (cc, z4) => Some (CCons k t cc, z4) | None => None end
+                    else if d =? 125 then Some (CCons k t CNil, z3) else None
+                | [] => None
+                end
+            end
+          else None
+      | [] => None
       end
   end.
 
 Fixpoint pval (fuel : nat) (s : list N) {struct fuel} : option (tag * list N) :=
-  match fuel with
-  | O => None
-  | S f =>
-      match skip_ws s with
-      | [] => None
-      | c :: r =>
-          if c =? 123 then                                   (* { *)
-            match skip_ws r with
-            | [] => None
-            | c1 :: r1 =>
-                if c1 =? 125 then Some (TCompound CNil, r1)
-                else match pentries f r with Some (cc, z) => Some (TCompound cc, z) | None => None end
-            end
-          else if c =? 91 then                               (* [ *)
-            if starts_semi (snd (span is_bare r)) then       (* "[X;" : typed array, X must be B, I or L *)
-              match arr_prefix r with
-              | None => None
-              | Some (k, r2) =>
-                  match skip_ws r2 with
-                  | [] => None
-                  | c3 :: r3 =>
-                      if c3 =? 93 then Some (mk_arr k [], r3)
-                      else match parr f k r2 with Some (l, z) => Some (mk_arr k l, z) | None => None end
-                  end
-              end
-            else
-              match skip_ws r with
-              | [] => None
-              | c1 :: r1 =>
-                  if c1 =? 93 then Some (TList LNil, r1)
-                  else
-                    match pelems f r with
-                    | Some (l, z) => if homog l then Some (TList l, z) else None
-                    | None => None
-                    end
-              end
-          else if (c =? 34) || (c =? 39) then
-            match unq c r with Some (x, z) => Some (TString x, z) | None => None end
-          else
-            let (tok, z) := span is_bare (c :: r) in
-            match classify tok with Some t => Some (t, z) | None => None end
-      end
-  end
+  match fuel with O => None | S f => pval_body (pelems f) (pentries f) (parr f) s end
 with pelems (fuel : nat) (s : list N) {struct fuel} : option (tlist * list N) :=
-  match fuel with
-  | O => None
-  | S f =>
-      match pval f s with
-      | None => None
-      | Some (t, z) =>
-          match skip_ws z with
-          | c :: z1 =>
-              if c =? 44 then
-                match pelems f z1 with Some (l, z2) => Some (LCons t l, z2) | None => None end
-              else if c =? 93 then Some (LCons t LNil, z1) else None
-          | [] => None
-          end
-      end
-  end
+  match fuel with O => None | S f => pelems_body (pval f) (pelems f) s end
 with pentries (fuel : nat) (s : list N) {struct fuel} : option (tcomp * list N) :=
-  match fuel with
-  | O => None
-  | S f =>
-      match pkey (skip_ws s) with
-      | None => None
-      | Some (k, z) =>
-          match skip_ws z with
-          | c :: z1 =>
-              if c =? 58 then
-                match pval f z1 with
-                | None => None
-                | Some (t, z2) =>
-                    match skip_ws z2 with
-                    | d :: z3 =>
-                        if d =? 44 then
-                          match pentries f z3 with Some (cc, z4) => Some (CCons k t cc, z4) | None => None end
-                        else if d =? 125 then Some (CCons k t CNil, z3) else None
-                    | [] => None
-                    end
-                end
-              else None
-          | [] => None
-          end
-      end
-  end.
+  match fuel with O => None | S f => pentries_body (pval f) (pentries f) s end.
 
 (* the whole text is one value, surrounded by optional space *)
 Definition parse (s : list N) : option tag :=
